@@ -5,6 +5,7 @@
 package main
 
 import (
+	"fmt"
 	"context"
 	"io"
 
@@ -124,7 +125,7 @@ type memFactory struct {
 	gotLimit int
 }
 
-func srcName(i int) string { return "mem" + string(rune('A'+i)) }
+func srcName(i int) string { return fmt.Sprintf("mem%02d", i) }
 
 func (f *memFactory) GetJournals(ctx context.Context, tagsCond *lql.Source, maxLimit int) (map[tag.Line]journal.Journal, error) {
 	f.gotLimit = maxLimit
@@ -138,7 +139,8 @@ func (f *memFactory) GetJournal(ctx context.Context, src string) (tag.Set, journ
 	panic("memFactory.GetJournal")
 }
 func (f *memFactory) Itearator(j journal.Journal, tmRange *model.TimeRange) journal.Iterator {
-	i := int(j.Name()[3] - 'A')
+	i := 0
+	fmt.Sscanf(j.Name(), "mem%d", &i)
 	f.order = append(f.order, i)
 	return f.its[i]
 }
